@@ -22,6 +22,7 @@ from fractions import Fraction as Fr
 import itertools
 
 I3 = ((1, 0, 0), (0, 1, 0), (0, 0, 1))
+LAST_READING = {}          # the tokenisation / directions of the last successful `consistent` call (used by gen_names.py)
 
 
 def mat_mul(A, B):
@@ -360,6 +361,9 @@ def consistent(key, ops, system, rhombohedral_axes=False):
                     bad = 'the two-fold axes along a and b %s, the symbol %s says otherwise' % (
                         'intersect' if g.twofold_axes_intersect() else 'do not intersect', key)
             if bad is None:
+                LAST_READING.clear()
+                LAST_READING.update({'lattice': lattice, 'tokens': list(toks), 'directions': [list(dirs[i]) for i in range(len(toks))],
+                                     'rhombohedral_axes': bool(lattice == 'r' and rhombohedral_axes)})
                 return True, [show(t) for t in toks]
             reasons.append(bad)
     return False, reasons[0] if reasons else 'the symbol cannot be read as %s' % system
